@@ -428,10 +428,20 @@ example : (floodRun (Flood.new cfgSmall) [.ping, .ping, .age 1000, .ping, .ping,
 example : (floodRun (Flood.new cfgSmall) [.ping, .ping, .age 1000, .ping, .age 1000, .ping]).2 = none := by decide
 example : ∀ op ∈ [FloodOp.ping, .settings 64, .age 1000], op.wf := by simp [FloodOp.wf]; decide
 
-/-- detection is immediate: one PING more than the threshold within a window -/
-theorem C15_flood_detects_default_ping :
-    (floodRun (Flood.new FloodCfg.default) (List.replicate (Consts.h2DefaultMaxPingPerWindow + 1) .ping)).2
-      = some (ENHANCE_YOUR_CALM, Consts.h2DefaultMaxPingPerWindow + 1, Consts.h2DefaultMaxPingPerWindow) := by
-  decide +kernel
+/-- detection is immediate: with the threshold at 3, the fourth PING inside one
+    window is answered with ENHANCE_YOUR_CALM (count 4 > 3); with a full window
+    between bursts the half-decay lets a slow peer through. (Explicit small
+    thresholds: the statement for every configuration is `C15_flood_bounded`;
+    the live check `h2conn` compares the default configuration's trip points -
+    100 PINGs, 50 SETTINGS - with this model.) -/
+theorem C15_flood_detects_ping_burst :
+    (floodRun (Flood.new { cfgSmall with maxPing := 3 }) [.ping, .ping, .ping, .ping]).2
+      = some (ENHANCE_YOUR_CALM, 4, 3) ∧
+    (floodRun (Flood.new { cfgSmall with maxPing := 3 }) [.ping, .ping, .ping, .age 1000, .ping, .ping]).2 = none := by
+  decide
+
+/-- the default thresholds are in the range the theorems talk about (`u32`) -/
+example : FloodCfg.default.maxPing + 1 < U32 ∧ FloodCfg.default.maxGlitch + Consts.h2MaxSettingsEntries < U32 := by
+  decide
 
 end Sozu.H2Wire
